@@ -354,7 +354,7 @@ pub fn gen_script(t: &mut Tape, p: &Profile) -> Script {
         reboot_allowed: t.vec_of(6, |t| (t.flag(), !t.chance(1, 4))),
         http,
         plans: t.vec_of(4, |t| (!t.chance(1, 5), t.choose(3) as u8)),
-        installs: t.vec_of(4, |t| InstallSpec { results: t.vec_of(4, |t| t.weighted(&[4, 1, 2]) as u8), progress: t.vec_of(4, |t| t.choose(101) as f32 / 100.0), concurrent: if t.chance(1, 4) { 2 } else { 0 } }),
+        installs: t.vec_of(4, |t| InstallSpec { results: t.vec_of(4, |t| t.weighted(&[4, 1, 2]) as u8), progress: t.vec_of(4, |t| t.choose(101) as f32 / 100.0), concurrent: match t.weighted(&[6, 2, 1]) { 0 => 0, 1 => 2, _ => IMPATIENT } }),
         reboots: t.vec_of(3, |t| !t.chance(1, 4)),
         faults: FaultSpec::default(),
         clock: if p.clock_jumps {
